@@ -680,6 +680,15 @@ func realBad(w *world, op *Op, o *outcome) map[string]string {
 	return out
 }
 
+func matchList() []map[string]string {
+	var l []map[string]string
+	for k := range match {
+		l = append(l, map[string]string{"f": k[0], "t": k[1]})
+	}
+	sort.Slice(l, func(i, j int) bool { return l[i]["f"]+"|"+l[i]["t"] < l[j]["f"]+"|"+l[j]["t"] })
+	return l
+}
+
 func main() {
 	metaPath := flag.String("meta", "", "pack description (nodes, filters, topics)")
 	workers := flag.Int("workers", 0, "")
@@ -723,5 +732,5 @@ func main() {
 		os.Exit(2)
 	}
 	rep.Summary(map[string]interface{}{"bad_states": atomic.LoadInt64(&badSeen), "minimal": minimal, "via_will": atomic.LoadInt64(&viaWill),
-		"match_pairs": len(match)})
+		"match_pairs": len(match), "match": matchList()})
 }
